@@ -7,6 +7,8 @@ is `expired_is_absent_partial`.
 -/
 import AskarModel.Model.Spec
 import AskarModel.Lemmas.Expiry
+import AskarModel.Model.SqlShape
+import AskarModel.Generated.Stmts
 
 namespace Askar.Store
 
@@ -84,5 +86,15 @@ theorem replace_resets_expiry (db db' : Db) (now : Int) (s : Sess) (k : Kind) (c
     ∀ it ∈ db'.items, it.sameIdent s.pid s.key k c n = true →
       it.expiry = ems.map (now + ·) ∧ it.value = v :=
   Lemmas.replace_resets_expiry db db' now s k c n v t ems h
+
+/-- In the CURRENT source (re-extracted on every run) every read statement carries the expiry atom … -/
+theorem read_stmts_hide_expired :
+    ∀ s ∈ [Sql.Generated.countQuery, Sql.Generated.scanQuery, Sql.Generated.fetchQuery], s.hidesExpired = true := by decide
+
+/-- … and no write statement does: that is defect D8 as a fact about the source text (when the source is
+    repaired this obligation breaks and the model must follow). -/
+theorem write_stmts_ignore_expiry :
+    ∀ s ∈ [Sql.Generated.deleteQuery, Sql.Generated.deleteAllQuery, Sql.Generated.updateQuery, Sql.Generated.insertQuery],
+      s.hidesExpired = false := by decide
 
 end Askar.Store
